@@ -9,10 +9,9 @@ P=$VERIF/seeded/$ID/patch.diff
 [ -f "$P" ] || { echo "no such seeded mutant $ID"; exit 2; }
 PROPS="$*"; [ -z "$PROPS" ] && PROPS=${ID%%-*}
 if [ -n "$(git -C /repo status --porcelain)" ]; then echo "/repo is not clean, refusing"; exit 2; fi
-restore() { git -C /repo checkout -- . ; git -C /repo clean -fdq; }
+restore() { git -C /repo reset -q --hard HEAD; git -C /repo clean -fdq; }
 trap restore EXIT
-git -C /repo apply "$P" 2>/dev/null || git -C /repo apply -3 "$P" 2>/dev/null || { echo "$ID: patch does not apply"; exit 2; }
-git -C /repo reset -q
+git -C /repo apply "$P" 2>/dev/null || { echo "$ID: patch does not apply to the current /repo HEAD"; exit 2; }
 EVD=$(mktemp -d /tmp/verif-seeded-ev.XXXXXX)
 trap 'restore; rm -rf "$EVD"' EXIT
 for C in $PROPS; do
